@@ -976,17 +976,22 @@ def _names_correspondence(ctx):
     keys = []
     for a in range(0, len(pairs), 4000):
         t = list(map(int, next(rep).split()))
-        keys += [tuple(t[i:i + 4]) for i in range(0, len(t), 4)]
+        keys += [tuple(t[i:i + 5]) for i in range(0, len(t), 5)]
     # ---- names: structure = model, and one-to-one
     seen = {}
     nbad = 0
-    for (n, m), key in zip(pairs, keys):
+    for (n, m), key5 in zip(pairs, keys):
+        key, words = key5[:4], key5[4]
         case = {'n': n, 'm': m}
         ctx.case('name', case, nontrivial=n >= 2, tag=f'kind{key[0]}' + (f'suf{key[3]}' if key[0] == 4 else ''))
         args = (n, m) if (n + m) % 3 else (np.int64(n), np.int64(m))
         st, val = _call2(P.nm_to_name, *args)
         name = val
         got = _parse_name(Z, name) if st == 'ok' else None
+        if st == 'ok' and isinstance(name, str) and got == key and len(name.split(' ')) != words and nbad < 3:
+            nbad += 1
+            ctx.disagree('name', case, name, f'{words} words')
+            ctx.pred_fail('name', case, f'nm_to_name({n}, {m}) = {name!r} has {len(name.split(" "))} blank-separated words, a name of kind {key[0]} has {words}')
         if got != key and nbad < 3:
             nbad += 1
             ctx.disagree('name', case, name if st == 'ok' else f'{st}: {val}', list(key))
